@@ -185,7 +185,11 @@ class Cond(Val):
         if self.kind == "rel":
             rel, a, b = self.data
             return Cond("rel", {"<": ("<=", b, a), "<=": ("<", b, a), "=": ("!=", a, b), "!=": ("=", a, b)}[rel])
-        return Cond("key", "!(%s)" % self.data, tree=("not", self.tree))
+        n_ = Cond("key", "!(%s)" % self.data, tree=("not", self.tree))
+        cm = getattr(self, "cmp", None)
+        if cm is not None:     # over the reals (the engine's reading of f64): !(a < b) is a >= b
+            n_.cmp = ({"Lt": "Ge", "Le": "Gt", "Gt": "Le", "Ge": "Lt", "Eq": "Ne", "Ne": "Eq"}[cm[0]], cm[1], cm[2])
+        return n_
 
     def key(self):
         if self.kind == "rel":
@@ -407,6 +411,13 @@ class Interp:
                 self.bind(p["pat"], a, e)
         if self.depth == 0:
             self.top_env = e
+        if self.loops and env is None:
+            # a function called from inside a summarised loop: its own locals are per-iteration temporaries of that loop, not
+            # accumulators that outlive it
+            own = collect_bound_vars(b["body"]) | collect_bound_vars(b["params"])
+            for lc in self.loops:
+                if isinstance(lc.inner_vars, set):
+                    lc.inner_vars |= own
         self.depth += 1
         try:
             if self.depth > self.max_depth:
@@ -716,7 +727,9 @@ class Interp:
                        "Gt": ("<", r.ent, l.ent), "Ge": ("<=", r.ent, l.ent)}[op]
                 return Cond("rel", rel)
             if isinstance(l, Num) and isinstance(r, Num):
-                return Cond("key", "%s %s %s" % (l.expr.key(), op, r.expr.key()), tree=("cmp", op, l.expr.key(), r.expr.key()))
+                c_ = Cond("key", "%s %s %s" % (l.expr.key(), op, r.expr.key()), tree=("cmp", op, l.expr.key(), r.expr.key()))
+                c_.cmp = (op, l.expr, r.expr)
+                return c_
             if isinstance(l, Struct) or isinstance(r, Struct) or isinstance(l, Opaque) or isinstance(r, Opaque):
                 return Cond("key", "%s %s %s" % (getattr(l, "name", "?"), op, getattr(r, "name", "?")))
             raise Undecided("comparison of %r and %r" % (l, r))
@@ -961,10 +974,18 @@ class Interp:
                 snap = snapshot(env)
                 aenv = Interp.Env(env)
                 self.bind(some_arm[0]["pat"], scrut, aenv)
-                tv = self.eval(some_arm[0]["body"], aenv)
+                self.cond_stack.append(c)          # effects inside a summarised loop must know they are conditional
+                try:
+                    tv = self.eval(some_arm[0]["body"], aenv)
+                finally:
+                    self.cond_stack.pop()
                 tstate = snapshot(env)
                 restore(env, snap)
-                ev = self.eval(none_arm[0]["body"], Interp.Env(env))
+                self.cond_stack.append(c.negate())
+                try:
+                    ev = self.eval(none_arm[0]["body"], Interp.Env(env))
+                finally:
+                    self.cond_stack.pop()
                 estate = snapshot(env)
                 merge_states(env, c, tstate, estate)
                 return merge_vals(c, tv, ev)
@@ -1070,6 +1091,7 @@ class Interp:
         guards = seq.guards_fn(k) if seq.guards_fn else []
         inner_vars = collect_bound_vars(body_expr) if body_expr is not None else set()
         lc = LoopCtx(k, cls, guards, inner_vars)
+        lc.cond_base = len(self.cond_stack)
         old = dict(self.class_of_index)
         self.class_of_index = dict(old)
         self.class_of_index[k] = cls
@@ -1127,6 +1149,7 @@ class Interp:
         cls = seq.classes[0]
         guards = seq.guards_fn(k2) if seq.guards_fn else []
         lc2 = LoopCtx(k2, cls, guards, collect_bound_vars(body_expr) if body_expr is not None else set())
+        lc2.cond_base = len(self.cond_stack)
         old = dict(self.class_of_index)
         self.class_of_index = dict(old)
         self.class_of_index[k2] = cls
@@ -1240,6 +1263,24 @@ class Interp:
             lc = self.loops[-1]
             idx_path = [p for p in path if p[0] in ("idx", "midx")]
             if not summarised or idx_path:
+                # an effect under an opaque `if` of this iteration happens only when the condition holds: additive / multiplicative
+                # contributions become ite(cond, v, neutral); any other conditional effect is outside the model
+                conds = self.cond_stack[getattr(lc, "cond_base", 0):]
+                if conds:
+                    if op in ("+", "-", "*") and isinstance(val, Num):
+                        neutral = Expr.const(1) if op == "*" else Expr.zero()
+                        ex = val.expr
+                        for c_ in reversed(conds):
+                            cm = getattr(c_, "cmp", None)
+                            if cm is not None:
+                                ex = Expr.atom(("itec", cm[0], cm[1], cm[2], ex, neutral))
+                            elif not any(b_ and (b_ in c_.key()) and ("«%s»" % b_) not in c_.key() for b_ in [l_.binder for l_ in self.loops]):
+                                ex = Expr.atom(("ite", c_.key(), ex, neutral))
+                            else:
+                                raise Undecided("condition %s mentions a loop binder outside an index marker" % c_.key()[:80])
+                        val = Num(ex)
+                    else:
+                        raise Undecided("conditional effect `%s` inside a summarised loop (condition %s)" % (op, conds[0].key()[:80]))
                 lc.effects.append((var, tuple(path), op, val, list(self.loop_guards_for(lc)) + list(guards), tuple(binders)))
                 return
             # summarised scalar effect of an inner loop on a variable outside the enclosing loop too: `var = new` is `var += new - old`
